@@ -34,6 +34,19 @@ type Req struct {
 	//            direct-nobody (http.NoBody), direct-nil (Body == nil)
 	Body    string   `json:"body"`
 	Payload kit.BStr `json:"payload,omitempty"`
+	// ZeroPad: leading zeros in front of the Content-Length digits of the wire-cl / wire-cl0 forms (1*DIGIT admits them).
+	ZeroPad int `json:"zero_pad,omitempty"`
+	// Accept: the Accept header, "" for none. The operations produce application/json only.
+	Accept string `json:"accept,omitempty"`
+}
+
+// unsatisfiableAccept: the Accept header admits nothing the operation produces (a second, independent defect).
+func (q Req) unsatisfiableAccept() bool {
+	switch q.Accept {
+	case "", "application/json", "*/*", "application/*", "text/plain, application/json;q=0.5":
+		return false
+	}
+	return true
 }
 
 // Case is one operation with several requests.
@@ -63,11 +76,14 @@ func (q Req) build(method string) *http.Request {
 		if q.HasCT {
 			b.WriteString("Content-Type: " + string(q.CT) + "\r\n")
 		}
+		if q.Accept != "" {
+			b.WriteString("Accept: " + q.Accept + "\r\n")
+		}
 		switch q.Body {
 		case "wire-cl":
-			fmt.Fprintf(&b, "Content-Length: %d\r\n\r\n%s", len(q.Payload), string(q.Payload))
+			fmt.Fprintf(&b, "Content-Length: %s%d\r\n\r\n%s", strings.Repeat("0", q.ZeroPad), len(q.Payload), string(q.Payload))
 		case "wire-cl0":
-			b.WriteString("Content-Length: 0\r\n\r\n")
+			b.WriteString("Content-Length: " + strings.Repeat("0", q.ZeroPad) + "0\r\n\r\n")
 		case "wire-chunked":
 			b.WriteString("Transfer-Encoding: chunked\r\n\r\n")
 			p := string(q.Payload)
@@ -111,6 +127,9 @@ func (q Req) build(method string) *http.Request {
 	}
 	if q.HasCT {
 		req.Header.Set("Content-Type", string(q.CT))
+	}
+	if q.Accept != "" {
+		req.Header.Set("Accept", q.Accept)
 	}
 	return req
 }
@@ -447,7 +466,14 @@ func (q Req) describe() string {
 	if q.HasCT {
 		ct = fmt.Sprintf("%q", string(q.CT))
 	}
-	return fmt.Sprintf("Content-Type %s, body %s %q", ct, q.Body, string(q.Payload))
+	s := fmt.Sprintf("Content-Type %s, body %s %q", ct, q.Body, string(q.Payload))
+	if q.ZeroPad > 0 {
+		s += fmt.Sprintf(", Content-Length with %d leading zeros", q.ZeroPad)
+	}
+	if q.Accept != "" {
+		s += fmt.Sprintf(", Accept %q", q.Accept)
+	}
+	return s
 }
 
 func check(c Case, r *rig, wild bool) *kit.Violation {
@@ -463,6 +489,13 @@ func check(c Case, r *rig, wild bool) *kit.Violation {
 		if viol != nil {
 			viol.Msg = fmt.Sprintf("%s: request %d (%s): %s", c.describe(), i, q.describe(), viol.Msg)
 			return viol
+		}
+		if q.unsatisfiableAccept() && !(v.Gate && (v.ParseErr || v.Admit == "no")) {
+			// The request passes (or is exempt from) the media type check; what its Accept header then leads to is not this
+			// property's business (and the entry points differ there by design: BindValidRequest offers the request's own
+			// media type as the default offer, validateRequest answers 406). Only the refusals of the media type check are
+			// judged under an unsatisfiable Accept header: they must stay 415/400.
+			continue
 		}
 		if why := judgeOne(c, q, v, ro, wild); why != "" {
 			return kit.Failf("%s: request %d (%s): %s; reflective entry point (BindAndValidate): %s; observed %s", c.describe(), i, q.describe(), v, why, ro)
